@@ -342,7 +342,8 @@ def run(ctx):
         "by TLC on the model only",
         "the reachability tracker is driven through a stub autonat client that answers at once and never errs or refuses; public "
         "addresses of the universe never share ip + port (no primary / secondary coupling)",
-        "interface addresses are injected into the manager's cache (two interfaces, fixed); addCertHashes is the identity",
+        "interface addresses are injected into the manager's cache (two interfaces, fixed); addCertHashes is a stub that appends a "
+        "fixed certhash to /webtransport addresses (the model's names are certhash-agnostic, the harness checks its presence)",
         "Start is called at most once and not after Close",
     ]}
 
